@@ -2,10 +2,11 @@
    Layout: every Theorem / Proof / Check first, all Print Assumptions (same order) at the end of the file -- the
    driver's assumption parser (driver/common.py, frozen) attributes everything printed after an "Axioms:" block to
    that block, so the line "name : statement" printed by a Check between two Print Assumptions would be read as
-   one more axiom.
+   one more axiom.  Related statements are grouped into one theorem (a conjunction) where that loses nothing:
+   each Print Assumptions over R costs about a second of the check's budget.
    All statements are about the model coq/Model/CFun.v over R x R (complex numbers as pairs of reals); the model is
-   tied to src/complex/*.rs by the Interval certificates of the C14 check.  czero = (0,0), cone = (1,0), ci = (0,1).
-   libm accuracy / f64 rounding are not the subject of these theorems (DESIGN section 10). *)
+   tied to src/complex/*.rs by the Interval certificates of the C14 check.  czero = (0,0), cone = (1,0), ci = (0,1),
+   ctwo = cone + cone = (2,0).  libm accuracy / f64 rounding are not the subject of these theorems (DESIGN 10). *)
 From Coq Require Import Reals Lra.
 From OV Require Import Model.CFun Proofs.CFun Proofs.CFunAlg Proofs.CFunInv Proofs.CFunReal.
 Local Open Scope R_scope.
@@ -39,16 +40,14 @@ Theorem im_ln_range : forall z : C, - PI < im (cln z) <= PI.
 Proof. exact im_ln_range_lemma. Qed.
 Check im_ln_range : forall z : C, - PI < im (cln z) <= PI.
 
-(* ---- general powers ---- *)
-Theorem pow_is_exp_ln : forall z w : C, z <> czero -> cpow z w = cexp (cmul w (cln z)).
-Proof. exact pow_is_exp_ln_lemma. Qed.
-Check pow_is_exp_ln : forall z w : C, z <> czero -> cpow z w = cexp (cmul w (cln z)).
+(* ---- general powers: z^w = exp (w ln z); powf is pow with a real exponent ---- *)
+Theorem pow_is_exp_ln : forall z w : C, z <> czero ->
+  cpow z w = cexp (cmul w (cln z)) /\ forall x : R, cpowf z x = cpow z (x, 0).
+Proof. intros z w Hz. exact (conj (pow_is_exp_ln_lemma z w Hz) (powf_is_pow_lemma z)). Qed.
+Check pow_is_exp_ln : forall z w : C, z <> czero ->
+  cpow z w = cexp (cmul w (cln z)) /\ forall x : R, cpowf z x = cpow z (x, 0).
 Example pow_is_exp_ln_nonvacuous : (0, -2) <> czero.
 Proof. intros H; inversion H; lra. Qed.
-
-Theorem powf_is_pow : forall (z : C) (x : R), cpowf z x = cpow z (x, 0).
-Proof. exact powf_is_pow_lemma. Qed.
-Check powf_is_pow : forall (z : C) (x : R), cpowf z x = cpow z (x, 0).
 
 (* ---- polar form round trips, both directions ---- *)
 Theorem polar_roundtrip : forall z : C, z <> czero -> cpolar (cabs z) (arg z) = z.
@@ -65,77 +64,72 @@ Check polar_roundtrip_inv : forall r t : R, 0 < r -> - PI < t <= PI ->
 Example polar_roundtrip_inv_nonvacuous : 0 < 2 /\ - PI < PI <= PI.
 Proof. pose proof PI_RGT_0. lra. Qed.
 
-(* ---- sin / cos / sinh / cosh equal their exponential definitions (ctwo = 1 + 1 = (2,0)) ---- *)
-Theorem sin_exp_def : forall z : C, csin z = cdiv (csub (cexp (cmul ci z)) (cexp (cneg (cmul ci z)))) (cmul ctwo ci).
-Proof. exact csin_exp_lemma. Qed.
-Check sin_exp_def : forall z : C, csin z = cdiv (csub (cexp (cmul ci z)) (cexp (cneg (cmul ci z)))) (cmul ctwo ci).
-
-Theorem cos_exp_def : forall z : C, ccos z = cdiv (cadd (cexp (cmul ci z)) (cexp (cneg (cmul ci z)))) ctwo.
-Proof. exact ccos_exp_lemma. Qed.
-Check cos_exp_def : forall z : C, ccos z = cdiv (cadd (cexp (cmul ci z)) (cexp (cneg (cmul ci z)))) ctwo.
-
-Theorem sinh_exp_def : forall z : C, csinh z = cdiv (csub (cexp z) (cexp (cneg z))) ctwo.
-Proof. exact csinh_exp_lemma. Qed.
-Check sinh_exp_def : forall z : C, csinh z = cdiv (csub (cexp z) (cexp (cneg z))) ctwo.
-
-Theorem cosh_exp_def : forall z : C, ccosh z = cdiv (cadd (cexp z) (cexp (cneg z))) ctwo.
-Proof. exact ccosh_exp_lemma. Qed.
-Check cosh_exp_def : forall z : C, ccosh z = cdiv (cadd (cexp z) (cexp (cneg z))) ctwo.
-
-Theorem exp_add : forall a b : C, cexp (cadd a b) = cmul (cexp a) (cexp b).
-Proof. exact cexp_add. Qed.
-Check exp_add : forall a b : C, cexp (cadd a b) = cmul (cexp a) (cexp b).
+(* ---- sin / cos / sinh / cosh equal their exponential definitions; exp is a homomorphism ---- *)
+Theorem exponential_forms : forall z : C,
+  csin z = cdiv (csub (cexp (cmul ci z)) (cexp (cneg (cmul ci z)))) (cmul ctwo ci) /\
+  ccos z = cdiv (cadd (cexp (cmul ci z)) (cexp (cneg (cmul ci z)))) ctwo /\
+  csinh z = cdiv (csub (cexp z) (cexp (cneg z))) ctwo /\
+  ccosh z = cdiv (cadd (cexp z) (cexp (cneg z))) ctwo /\
+  forall w : C, cexp (cadd z w) = cmul (cexp z) (cexp w).
+Proof. intros z. exact (conj (csin_exp_lemma z) (conj (ccos_exp_lemma z) (conj (csinh_exp_lemma z) (conj (ccosh_exp_lemma z) (cexp_add z))))). Qed.
+Check exponential_forms : forall z : C,
+  csin z = cdiv (csub (cexp (cmul ci z)) (cexp (cneg (cmul ci z)))) (cmul ctwo ci) /\
+  ccos z = cdiv (cadd (cexp (cmul ci z)) (cexp (cneg (cmul ci z)))) ctwo /\
+  csinh z = cdiv (csub (cexp z) (cexp (cneg z))) ctwo /\
+  ccosh z = cdiv (cadd (cexp z) (cexp (cneg z))) ctwo /\
+  forall w : C, cexp (cadd z w) = cmul (cexp z) (cexp w).
 
 (* ---- Pythagorean identities ---- *)
-Theorem pythagoras : forall z : C, cadd (cmul (csin z) (csin z)) (cmul (ccos z) (ccos z)) = cone.
-Proof. exact pythagoras_lemma. Qed.
-Check pythagoras : forall z : C, cadd (cmul (csin z) (csin z)) (cmul (ccos z) (ccos z)) = cone.
-
-Theorem pythagoras_hyp : forall z : C, csub (cmul (ccosh z) (ccosh z)) (cmul (csinh z) (csinh z)) = cone.
-Proof. exact pythagoras_hyp_lemma. Qed.
-Check pythagoras_hyp : forall z : C, csub (cmul (ccosh z) (ccosh z)) (cmul (csinh z) (csinh z)) = cone.
+Theorem pythagoras : forall z : C,
+  cadd (cmul (csin z) (csin z)) (cmul (ccos z) (ccos z)) = cone /\
+  csub (cmul (ccosh z) (ccosh z)) (cmul (csinh z) (csinh z)) = cone.
+Proof. intros z. exact (conj (pythagoras_lemma z) (pythagoras_hyp_lemma z)). Qed.
+Check pythagoras : forall z : C,
+  cadd (cmul (csin z) (csin z)) (cmul (ccos z) (ccos z)) = cone /\
+  csub (cmul (ccosh z) (ccosh z)) (cmul (csinh z) (csinh z)) = cone.
 
 (* ---- reduction to the real functions on the real axis ---- *)
-Theorem real_axis_direct : forall x : R, cexp (x, 0) = (exp x, 0) /\ csin (x, 0) = (sin x, 0) /\ ccos (x, 0) = (cos x, 0) /\
-  csinh (x, 0) = (sinh x, 0) /\ ccosh (x, 0) = (cosh x, 0) /\ ctanh (x, 0) = (tanh x, 0).
-Proof. intros x. exact (conj (cexp_real x) (conj (csin_real x) (conj (ccos_real x) (conj (csinh_real x) (conj (ccosh_real x) (ctanh_real x)))))). Qed.
-Check real_axis_direct : forall x : R, cexp (x, 0) = (exp x, 0) /\ csin (x, 0) = (sin x, 0) /\ ccos (x, 0) = (cos x, 0) /\
-  csinh (x, 0) = (sinh x, 0) /\ ccosh (x, 0) = (cosh x, 0) /\ ctanh (x, 0) = (tanh x, 0).
-
-Theorem real_axis_tan : forall x : R, cos x <> 0 -> ctan (x, 0) = (tan x, 0).
-Proof. exact ctan_real. Qed.
-Check real_axis_tan : forall x : R, cos x <> 0 -> ctan (x, 0) = (tan x, 0).
-Example real_axis_tan_nonvacuous : cos 0 <> 0.
+Theorem real_axis_direct : forall x : R,
+  cexp (x, 0) = (exp x, 0) /\ csin (x, 0) = (sin x, 0) /\ ccos (x, 0) = (cos x, 0) /\
+  csinh (x, 0) = (sinh x, 0) /\ ccosh (x, 0) = (cosh x, 0) /\ ctanh (x, 0) = (tanh x, 0) /\
+  (cos x <> 0 -> ctan (x, 0) = (tan x, 0)).
+Proof. intros x. exact (conj (cexp_real x) (conj (csin_real x) (conj (ccos_real x) (conj (csinh_real x) (conj (ccosh_real x) (conj (ctanh_real x) (ctan_real x))))))). Qed.
+Check real_axis_direct : forall x : R,
+  cexp (x, 0) = (exp x, 0) /\ csin (x, 0) = (sin x, 0) /\ ccos (x, 0) = (cos x, 0) /\
+  csinh (x, 0) = (sinh x, 0) /\ ccosh (x, 0) = (cosh x, 0) /\ ctanh (x, 0) = (tanh x, 0) /\
+  (cos x <> 0 -> ctan (x, 0) = (tan x, 0)).
+Example real_axis_direct_nonvacuous : cos 0 <> 0.
 Proof. rewrite cos_0. lra. Qed.
 
-Theorem real_axis_ln_sqrt : forall x : R, 0 < x -> cln (x, 0) = (ln x, 0) /\ csqrt (x, 0) = (sqrt x, 0) /\ forall a : R, cpowf (x, 0) a = (Rpower x a, 0).
-Proof. intros x Hx. exact (conj (cln_real x Hx) (conj (csqrt_real x (Rlt_le _ _ Hx)) (fun a => cpowf_real x a Hx))). Qed.
-Check real_axis_ln_sqrt : forall x : R, 0 < x -> cln (x, 0) = (ln x, 0) /\ csqrt (x, 0) = (sqrt x, 0) /\ forall a : R, cpowf (x, 0) a = (Rpower x a, 0).
-Example real_axis_ln_sqrt_nonvacuous : 0 < 2.
+Theorem real_axis_ln_sqrt : forall x : R,
+  (0 < x -> cln (x, 0) = (ln x, 0) /\ csqrt (x, 0) = (sqrt x, 0) /\ forall a : R, cpowf (x, 0) a = (Rpower x a, 0)) /\
+  (x < 0 -> cln (x, 0) = (ln (- x), PI) /\ csqrt (x, 0) = (0, sqrt (- x))).
+Proof. intros x. exact (conj (fun Hx => conj (cln_real x Hx) (conj (csqrt_real x (Rlt_le _ _ Hx)) (fun a => cpowf_real x a Hx))) (fun Hx => conj (cln_real_neg x Hx) (csqrt_real_neg x Hx))). Qed.
+Check real_axis_ln_sqrt : forall x : R,
+  (0 < x -> cln (x, 0) = (ln x, 0) /\ csqrt (x, 0) = (sqrt x, 0) /\ forall a : R, cpowf (x, 0) a = (Rpower x a, 0)) /\
+  (x < 0 -> cln (x, 0) = (ln (- x), PI) /\ csqrt (x, 0) = (0, sqrt (- x))).
+Example real_axis_ln_sqrt_nonvacuous : 0 < 2 /\ -4 < 0.
 Proof. lra. Qed.
 
-Theorem negative_real_axis : forall x : R, x < 0 -> cln (x, 0) = (ln (- x), PI) /\ csqrt (x, 0) = (0, sqrt (- x)).
-Proof. intros x Hx. exact (conj (cln_real_neg x Hx) (csqrt_real_neg x Hx)). Qed.
-Check negative_real_axis : forall x : R, x < 0 -> cln (x, 0) = (ln (- x), PI) /\ csqrt (x, 0) = (0, sqrt (- x)).
-Example negative_real_axis_nonvacuous : -4 < 0.
-Proof. lra. Qed.
-
-(* ---- reciprocal functions are reciprocals (sec, csc, cot, sech, csch, coth are cone / f by definition) ---- *)
+(* ---- reciprocal functions are reciprocals (sec, csc, cot, sech, csch, coth are cone / f in the model as in the source);
+        tan, tanh are the quotients ---- *)
 Theorem reciprocals : forall z : C,
-  (ccos z <> czero -> cmul (csec z) (ccos z) = cone) /\ (csin z <> czero -> cmul (ccsc z) (csin z) = cone) /\
-  (ctan z <> czero -> cmul (ccot z) (ctan z) = cone) /\ (ccosh z <> czero -> cmul (csech z) (ccosh z) = cone) /\
-  (csinh z <> czero -> cmul (ccsch z) (csinh z) = cone) /\ (ctanh z <> czero -> cmul (ccoth z) (ctanh z) = cone).
-Proof. intros z. exact (conj (crecip_mul (ccos z)) (conj (crecip_mul (csin z)) (conj (crecip_mul (ctan z)) (conj (crecip_mul (ccosh z)) (conj (crecip_mul (csinh z)) (crecip_mul (ctanh z))))))). Qed.
+  (ccos z <> czero -> cmul (csec z) (ccos z) = cone /\ cmul (ctan z) (ccos z) = csin z) /\
+  (csin z <> czero -> cmul (ccsc z) (csin z) = cone) /\
+  (ctan z <> czero -> cmul (ccot z) (ctan z) = cone) /\
+  (ccosh z <> czero -> cmul (csech z) (ccosh z) = cone /\ cmul (ctanh z) (ccosh z) = csinh z) /\
+  (csinh z <> czero -> cmul (ccsch z) (csinh z) = cone) /\
+  (ctanh z <> czero -> cmul (ccoth z) (ctanh z) = cone).
+Proof. intros z. exact (conj (fun H => conj (crecip_mul (ccos z) H) (ctan_is_quotient z H)) (conj (crecip_mul (csin z)) (conj (crecip_mul (ctan z)) (conj (fun H => conj (crecip_mul (ccosh z) H) (ctanh_is_quotient z H)) (conj (crecip_mul (csinh z)) (crecip_mul (ctanh z))))))). Qed.
 Check reciprocals : forall z : C,
-  (ccos z <> czero -> cmul (csec z) (ccos z) = cone) /\ (csin z <> czero -> cmul (ccsc z) (csin z) = cone) /\
-  (ctan z <> czero -> cmul (ccot z) (ctan z) = cone) /\ (ccosh z <> czero -> cmul (csech z) (ccosh z) = cone) /\
-  (csinh z <> czero -> cmul (ccsch z) (csinh z) = cone) /\ (ctanh z <> czero -> cmul (ccoth z) (ctanh z) = cone).
+  (ccos z <> czero -> cmul (csec z) (ccos z) = cone /\ cmul (ctan z) (ccos z) = csin z) /\
+  (csin z <> czero -> cmul (ccsc z) (csin z) = cone) /\
+  (ctan z <> czero -> cmul (ccot z) (ctan z) = cone) /\
+  (ccosh z <> czero -> cmul (csech z) (ccosh z) = cone /\ cmul (ctanh z) (ccosh z) = csinh z) /\
+  (csinh z <> czero -> cmul (ccsch z) (csinh z) = cone) /\
+  (ctanh z <> czero -> cmul (ccoth z) (ctanh z) = cone).
 Example reciprocals_nonvacuous : ccos (0, 0) <> czero /\ ccosh (0, 0) <> czero.
 Proof. rewrite ccos_real, ccosh_real, cos_0, cosh_0. split; intros H; inversion H; lra. Qed.
-
-Theorem tan_is_quotient : forall z : C, (ccos z <> czero -> cmul (ctan z) (ccos z) = csin z) /\ (ccosh z <> czero -> cmul (ctanh z) (ccosh z) = csinh z).
-Proof. intros z. exact (conj (ctan_is_quotient z) (ctanh_is_quotient z)). Qed.
-Check tan_is_quotient : forall z : C, (ccos z <> czero -> cmul (ctan z) (ccos z) = csin z) /\ (ccosh z <> czero -> cmul (ctanh z) (ccosh z) = csinh z).
 
 (* ---- right inverses: f (f^-1 z) = z ---- *)
 Theorem sin_asin : forall z : C, csin (casin z) = z.
@@ -160,55 +154,33 @@ Theorem cosh_acosh : forall z : C, ccosh (cacosh z) = z.
 Proof. exact cosh_acosh_lemma. Qed.
 Check cosh_acosh : forall z : C, ccosh (cacosh z) = z.
 
-(* atanh is infinite at +-1: the hypotheses are necessary *)
+(* atanh is infinite at +-1 (atan at +-i): the hypotheses are necessary *)
 Theorem tanh_atanh : forall z : C, z <> cone -> z <> cneg cone -> ctanh (catanh z) = z.
 Proof. exact tanh_atanh_lemma. Qed.
 Check tanh_atanh : forall z : C, z <> cone -> z <> cneg cone -> ctanh (catanh z) = z.
 Example tanh_atanh_nonvacuous : (-2, 0) <> cone /\ (-2, 0) <> cneg cone.
 Proof. split; intros H; inversion H; lra. Qed.
 
-Theorem sec_asec : forall z : C, z <> czero -> csec (casec z) = z.
-Proof. exact sec_asec_lemma. Qed.
-Check sec_asec : forall z : C, z <> czero -> csec (casec z) = z.
-Example sec_asec_nonvacuous : (1 / 2, 0) <> czero.
-Proof. intros H; inversion H; lra. Qed.
-
-Theorem csc_acsc : forall z : C, z <> czero -> ccsc (cacsc z) = z.
-Proof. exact csc_acsc_lemma. Qed.
-Check csc_acsc : forall z : C, z <> czero -> ccsc (cacsc z) = z.
-
-Theorem cot_acot : forall z : C, z <> czero -> z <> ci -> z <> cneg ci -> ccot (cacot z) = z.
-Proof. exact cot_acot_lemma. Qed.
-Check cot_acot : forall z : C, z <> czero -> z <> ci -> z <> cneg ci -> ccot (cacot z) = z.
-Example cot_acot_nonvacuous : (0, 1 / 2) <> czero /\ (0, 1 / 2) <> ci /\ (0, 1 / 2) <> cneg ci.
+(* the six inverses defined through 1/z (asec, acsc, acot, asech, acsch, acoth) *)
+Theorem reciprocal_right_inverses : forall z : C, z <> czero ->
+  csec (casec z) = z /\ ccsc (cacsc z) = z /\ csech (casech z) = z /\ ccsch (cacsch z) = z /\
+  (z <> ci -> z <> cneg ci -> ccot (cacot z) = z) /\
+  (z <> cone -> z <> cneg cone -> ccoth (cacoth z) = z).
+Proof. intros z Hz. exact (conj (sec_asec_lemma z Hz) (conj (csc_acsc_lemma z Hz) (conj (sech_asech_lemma z Hz) (conj (csch_acsch_lemma z Hz) (conj (cot_acot_lemma z Hz) (coth_acoth_lemma z Hz)))))). Qed.
+Check reciprocal_right_inverses : forall z : C, z <> czero ->
+  csec (casec z) = z /\ ccsc (cacsc z) = z /\ csech (casech z) = z /\ ccsch (cacsch z) = z /\
+  (z <> ci -> z <> cneg ci -> ccot (cacot z) = z) /\
+  (z <> cone -> z <> cneg cone -> ccoth (cacoth z) = z).
+Example reciprocal_right_inverses_nonvacuous :
+  (1 / 2, 1 / 2) <> czero /\ (1 / 2, 1 / 2) <> ci /\ (1 / 2, 1 / 2) <> cneg ci /\ (1 / 2, 1 / 2) <> cone /\ (1 / 2, 1 / 2) <> cneg cone.
 Proof. repeat split; intros H; inversion H; lra. Qed.
 
-Theorem sech_asech : forall z : C, z <> czero -> csech (casech z) = z.
-Proof. exact sech_asech_lemma. Qed.
-Check sech_asech : forall z : C, z <> czero -> csech (casech z) = z.
-
-Theorem csch_acsch : forall z : C, z <> czero -> ccsch (cacsch z) = z.
-Proof. exact csch_acsch_lemma. Qed.
-Check csch_acsch : forall z : C, z <> czero -> ccsch (cacsch z) = z.
-
-Theorem coth_acoth : forall z : C, z <> czero -> z <> cone -> z <> cneg cone -> ccoth (cacoth z) = z.
-Proof. exact coth_acoth_lemma. Qed.
-Check coth_acoth : forall z : C, z <> czero -> z <> cone -> z <> cneg cone -> ccoth (cacoth z) = z.
-Example coth_acoth_nonvacuous : (1 / 2, 0) <> czero /\ (1 / 2, 0) <> cone /\ (1 / 2, 0) <> cneg cone.
-Proof. repeat split; intros H; inversion H; lra. Qed.
-
-(* ---- principal ranges of asin / acos (for every z, cuts included) ---- *)
-Theorem re_asin_range : forall z : C, - (PI / 2) <= re (casin z) <= PI / 2.
-Proof. exact re_asin_range_lemma. Qed.
-Check re_asin_range : forall z : C, - (PI / 2) <= re (casin z) <= PI / 2.
-
-Theorem re_acos_range : forall z : C, 0 <= re (cacos z) <= PI.
-Proof. exact re_acos_range_lemma. Qed.
-Check re_acos_range : forall z : C, 0 <= re (cacos z) <= PI.
-
-Theorem asin_acos_complementary : forall z : C, cadd (casin z) (cacos z) = (PI / 2, 0).
-Proof. exact asin_acos_sum. Qed.
-Check asin_acos_complementary : forall z : C, cadd (casin z) (cacos z) = (PI / 2, 0).
+(* ---- principal ranges of asin / acos (for every z, cuts included); asin z + acos z = PI/2 ---- *)
+Theorem asin_acos_ranges : forall z : C,
+  - (PI / 2) <= re (casin z) <= PI / 2 /\ 0 <= re (cacos z) <= PI /\ cadd (casin z) (cacos z) = (PI / 2, 0).
+Proof. intros z. exact (conj (re_asin_range_lemma z) (conj (re_acos_range_lemma z) (asin_acos_sum z))). Qed.
+Check asin_acos_ranges : forall z : C,
+  - (PI / 2) <= re (casin z) <= PI / 2 /\ 0 <= re (cacos z) <= PI /\ cadd (casin z) (cacos z) = (PI / 2, 0).
 
 (* ---- assumption audit: one Print Assumptions per theorem, in the order of the theorems above ---- *)
 Print Assumptions polar_decomp.
@@ -217,34 +189,18 @@ Print Assumptions sqrt_sqr.
 Print Assumptions re_sqrt_nonneg.
 Print Assumptions im_ln_range.
 Print Assumptions pow_is_exp_ln.
-Print Assumptions powf_is_pow.
 Print Assumptions polar_roundtrip.
 Print Assumptions polar_roundtrip_inv.
-Print Assumptions sin_exp_def.
-Print Assumptions cos_exp_def.
-Print Assumptions sinh_exp_def.
-Print Assumptions cosh_exp_def.
-Print Assumptions exp_add.
+Print Assumptions exponential_forms.
 Print Assumptions pythagoras.
-Print Assumptions pythagoras_hyp.
 Print Assumptions real_axis_direct.
-Print Assumptions real_axis_tan.
 Print Assumptions real_axis_ln_sqrt.
-Print Assumptions negative_real_axis.
 Print Assumptions reciprocals.
-Print Assumptions tan_is_quotient.
 Print Assumptions sin_asin.
 Print Assumptions cos_acos.
 Print Assumptions tan_atan.
 Print Assumptions sinh_asinh.
 Print Assumptions cosh_acosh.
 Print Assumptions tanh_atanh.
-Print Assumptions sec_asec.
-Print Assumptions csc_acsc.
-Print Assumptions cot_acot.
-Print Assumptions sech_asech.
-Print Assumptions csch_acsch.
-Print Assumptions coth_acoth.
-Print Assumptions re_asin_range.
-Print Assumptions re_acos_range.
-Print Assumptions asin_acos_complementary.
+Print Assumptions reciprocal_right_inverses.
+Print Assumptions asin_acos_ranges.
